@@ -42,9 +42,11 @@ Proof. exact stream_cfg_eq_reference. Qed.
 Print Assumptions C03_ctr_regenerated_bookkeeping_eq_reference.
 
 (* in particular the AES-NI whole-block function with its end-of-loop updates of *buflen, pblk[8..15]
-   and stream->bytectr, for one call of any number of blocks *)
+   and stream->bytectr, for one call of any number of blocks entered - as
+   crypto_aesctr_aesni_stream does - on a block boundary *)
 Theorem C03_aesni_wholeblocks_bookkeeping_eq_reference : forall (E : list N -> list N) s inp,
-  16 <= N.of_nat (length inp) -> bytectr s + N.of_nat (length inp) < two64 -> length (pblk s) = 16%nat ->
+  16 <= N.of_nat (length inp) -> bytectr s mod 16 = 0 ->
+  bytectr s + N.of_nat (length inp) < two64 -> length (pblk s) = 16%nat ->
   wholeblocks_aesni E s inp (N.of_nat (length inp)) = Ref.wholeblocks_aesni E s inp (N.of_nat (length inp)).
 Proof. exact wholeblocks_aesni_eq_reference. Qed.
 Print Assumptions C03_aesni_wholeblocks_bookkeeping_eq_reference.
